@@ -103,6 +103,14 @@ def capsOfBits (l : List Bool) : Caps :=
       osc4 := l, osc10 := m, osc11 := n, osc176 := o, inBandResize := p, explicitWidth := q }
   | _ => {}
 
+/-- Which capabilities a terminal advertising the fake console's mask bits must end up with
+(fakeconsole.CapNames: 0 sixel, 1 sync, 2 unicodeCore, 3 colorTheme, 4 kittyKeyboard, 5 kittyGraphics,
+6 rgb, 7 styledUnderlines, 8 osc4, 9 osc10, 10 osc11, 11 osc176, 12 sizePixels, 13 sizeChars,
+14 inBandResize, 15 explicitWidth, 16 vte, 17 sixelGeom, 18 xtversion), in `capabilities` order. -/
+def capsOfMask (m : Nat) : List Bool :=
+  let b (i : Nat) : Bool := m / 2 ^ i % 2 == 1
+  [b 1, b 2, false, b 6, b 5, b 4, b 7 || b 16, b 0 || b 17, b 3, b 13, b 12, b 8, b 9, b 10, b 11, b 14, b 15]
+
 def kv (f : List String) (k : String) : Option String :=
   f.findSome? fun x => if x.startsWith (k ++ "=") then some ((x.drop (k.length + 1)).toString) else none
 
@@ -232,7 +240,23 @@ def step (d : D) (line : String) : D × String :=
   | "#case" :: _ => ({}, "-\t-\t-")
   | "init" :: rest =>
     match parseInit rest with
-    | some s => ({ d with sys := s }, "-\t-\t-")
+    | some s =>
+      -- oracle for the start-up collection of `New`: the capabilities are exactly those the
+      -- terminal advertised in its replies (fake console capability mask)
+      let verdict := match (kv rest "mask").bind String.toNat? with
+        | some m =>
+          let want := capsOfMask m
+          let got := s.vs.caps.toList
+          -- explicitWidth (index 16) depends on the cursor-position probe, noZWJ (2) on quirks: not compared
+          let cmp : List (String × Bool × Bool) := (Caps.fieldNames.zip (want.zip got)).filter
+            fun (x : String × Bool × Bool) => x.1 != "explicitWidth" && x.1 != "noZWJ" && x.2.1 != x.2.2 &&
+              -- the OSC 176 reply is posted with the non-blocking PostEvent: with a tiny queue it may be dropped
+              !(x.1 == "osc176" && (kv rest "queue").getD "0" != "0")
+          match cmp with
+          | [] => "ok"
+          | x :: _ => s!"FAIL after New the capability {x.1} is {x.2.2} although the terminal's replies say {x.2.1}"
+        | none => "-"
+      ({ d with sys := s }, s!"init\tinit\t{verdict}")
     | none => ({ d with bad := true }, if impl == "error" then "init\terror\tFAIL vaxis.New failed on the fake console" else "bad-init\tbad-init\tbad-op")
   | "setreq" :: b :: _ =>
     let s := { d.sys with vs := { d.sys.vs with reqCursorPos := b == "1" } }
